@@ -272,7 +272,8 @@ def plan(rng: random.Random, k: int) -> list[dict]:
              {"dims": [], "rs": 0, "style": "dense", "ls": 0},
              {"dims": [], "rs": 0, "style": "random", "ls": rng.getrandbits(30)},
              {"dims": DIMS, "rs": rng.getrandbits(30), "style": "canonical", "ls": 0},
-             {"dims": [], "rs": 0, "style": "canonical", "ls": 0, "crlf": True}]
+             {"dims": [], "rs": 0, "style": "canonical", "ls": 0, "crlf": True},
+             {"dims": DIMS, "rs": rng.getrandbits(30), "style": "canonical", "ls": 0, "crlf": True}]   # (multi-line literal forms)
     while len(specs) < k:
         c = rng.random()
         dims = DIMS if c < 0.6 else rng.sample(DIMS, rng.choice([1, 1, 2, 3]))
@@ -662,7 +663,9 @@ def token_checks(run: core.Run, pool: core.Pool, drv: core.Driver, progs: list[d
     pair, and a pair the table leaves unseparated is a safe boundary."""
     texts, toks = [], []
     for p in progs[: (100 if quick else 1500)]:
-        for t, tk in zip(p["texts"], p["toks"]):
+        for t, tk, sp_ in zip(p["texts"], p["toks"], p["specs"]):
+            if sp_.get("crlf"):
+                continue      # (the token texts of a CRLF rendering carry \r\n inside multi-line literals: not the printer's)
             texts.append(t)
             toks.append(tk)
     chunks = [texts[i:i + 100] for i in range(0, len(texts), 100)]
